@@ -70,7 +70,30 @@ package patchvalidator
 //@     invariant forall q int :: 0 <= q && q < _k ==> values[q] != value
 //@   ensures result == (exists q int :: 0 <= q && q < len(values) && values[q] == value)
 
-// outcome of the per-action validators as seen from ValidateDelta
+// outcome of the per-action validators as seen from ValidateDelta: the dispatcher is verified against the per-action
+// verdicts (one uninterpreted predicate per validator type, an `assumes` clause:
+// the bodies stay under the zero-annotation safety obligations); which validator an action is sent to, and that an
+// unsupported action is refused, is part of patchValid's definition (operationparser contracts)
+//@ spec replaceValid(pt patch.Patch) bool
+//@ spec jsonPatchValid(pt patch.Patch) bool
+//@ spec addKeysValid(pt patch.Patch) bool
+//@ spec removeKeysValid(pt patch.Patch) bool
+//@ spec addServicesValid(pt patch.Patch) bool
+//@ spec removeServicesValid(pt patch.Patch) bool
+//@ spec akaValid(pt patch.Patch) bool
+//@ func (*ReplaceValidator).Validate
+//@   assumes (result == nil) == replaceValid(p)
+//@ func (*JSONValidator).Validate
+//@   assumes (result == nil) == jsonPatchValid(p)
+//@ func (*AddPublicKeysValidator).Validate
+//@   assumes (result == nil) == addKeysValid(p)
+//@ func (*RemovePublicKeysValidator).Validate
+//@   assumes (result == nil) == removeKeysValid(p)
+//@ func (*AddServicesValidator).Validate
+//@   assumes (result == nil) == addServicesValid(p)
+//@ func (*RemoveServicesValidator).Validate
+//@   assumes (result == nil) == removeServicesValid(p)
+//@ func (*AlsoKnownAsValidator).Validate
+//@   assumes (result == nil) == akaValid(p)
 //@ func Validate
-//@   trusted
 //@   ensures (result == nil) == patchValid(p)
